@@ -34,6 +34,10 @@ pub fn dispatch(ctx: &Ctx) -> i32 {
         "C20" => c20::run(ctx),
         "SMOKE" => smoke::run(ctx),
         "PLUGSMOKE" => plugsmoke::run(ctx),
+        "FUZZSEEDS" => {
+            crate::fuzzapi::write_seeds("/verif/fuzz/seeds");
+            0
+        }
         "C01" | "C02" | "C04" | "C06" | "C07" | "C08" | "C09" | "C11H" => tower::run(ctx),
         other => {
             eprintln!("no check for {other}");
